@@ -11,7 +11,7 @@ RULE = ("one case = one operation (int/slice/mask/int-array selection, take with
         "through Series.iloc) on one generated column in one of 12 layouts, compared with the Coq model, the Coq spec and a "
         "plain Python list; plus frame-level row selections/reorderings with a unique id in the base column and inside every "
         "nested table; distinct = (op, layout, sizes, args) signature; non-trivial = not an error and not the identity")
-ASSUMPTIONS = ["assignment values contain no NaN (pandas' from_pandas convention turns NaN into null at the input boundary)",
+ASSUMPTIONS = ["NaN in an offered value is a value or 'missing' according to the input convention of the route it takes (ExtArray.from_pandas; the flag is derived by the harness from the form of the value)",
                "integer-array assignment keys address distinct positions (the property's quantifier)"]
 CORRESPONDENCE = "m_getitem_*/m_take/m_concat/m_dropna/m_pickle/m_setitem (ExtArray.v) vs NestedExtensionArray"
 EXTRA_IMPORTS = "FrameRows"
